@@ -2,7 +2,24 @@
    a refused allocation is reported, leaves the object exactly as it was and leaks nothing;
    shrink / delete / free cannot fail.  Only statements, each closed by [exact].
    [refused ev] = the allocation oracle refused a request among the events of the operation;
-   the theorems quantify over every oracle (single failures, persistent failure from k on, ...). *)
+   the theorems quantify over every oracle (single failures, persistent failure from k on, ...).
+
+   Direction of M1.  C14_*_fail_unchanged are implications: refused request -> documented error
+   value + unchanged state.  The converse (error value -> some request was refused) holds for the
+   queue and the map within their length bounds (C14_eq_fail_iff, C14_spm_fail_iff); it is FALSE
+   for the array, which also answers ENOMEM - without asking the allocator - when the byte count
+   nrec * reclen (or size + nrec * reclen) does not fit size_t (C14_ea_error_without_refusal);
+   the exact condition is C14_ea_fail_iff: error value <-> refused \/ not representable.
+
+   Limitation of M3 (ghost heap).  Allocation events carry block SIZES, not block identities, and
+   the ghost heap ([heap_run], DS/AllocOracle.v) is a multiset of the sizes of the live blocks:
+   [AFree n] removes ONE live block of size n and fails (None) only if there is none.  The no-leak
+   theorems therefore prove that frees and allocations balance per size (nothing leaked, no free
+   without a live block of that size); they cannot distinguish freeing block A twice from freeing
+   two distinct live blocks A and B of the same size.  Block identity is checked only in the
+   correspondence run: the wrapped allocator of the C harness keys its table by pointer (a free of
+   a block that is not live is logged as "f?" and the build runs under ASan), and the size-level
+   event log of the C must equal the model's. *)
 From Coq Require Import NArith ZArith List Bool Permutation.
 From LCP Require Import Base.CheckedMem.
 From LCP Require Import Gen.Repo_ds.
@@ -31,6 +48,27 @@ Theorem C14_ea_fail_unchanged :
 Proof. exact r_ea_fail_unchanged. Qed.
 Print Assumptions C14_ea_fail_unchanged.
 
+(* ... the exact condition for the array: the error value is returned iff a request was refused
+   or the requested byte count is not representable ([ea_unrep]: nrec * reclen >= 2^64 for init /
+   resize, nrec * reclen or size + nrec * reclen >= 2^64 for append) *)
+Theorem C14_ea_fail_iff :
+  forall op st o x st' o' ev,
+    st_inv st -> ea_op_ok op ->
+    r_ea_step op st o = Ok (x, st', o', ev) ->
+    is_shrink op = false ->
+    (x = ea_err_out op <-> refused ev = true \/ ea_unrep op (st_abs st) = true).
+Proof. exact r_ea_fail_iff. Qed.
+Print Assumptions C14_ea_fail_iff.
+
+(* ... so "error value -> refused" does not hold for the array: resize(2^63 records of 4 bytes)
+   returns -1 with no allocation event at all *)
+Theorem C14_ea_error_without_refusal :
+  let e := {| ea_size := 0; ea_alloc := 0; ea_buf := [] |} in
+  r_ea_step (OResize (2 ^ 63) 4 0) (Some e) all_grant = Ok (XRc false, Some e, all_grant, []).
+Proof. exact r_ea_error_without_refusal. Qed.
+Print Assumptions C14_ea_error_without_refusal.
+
+(* queue (init, add): refused request -> -1 / NULL and nothing changed *)
 Theorem C14_eq_fail_unchanged :
   forall rl op st o x st' o' ev,
     qst_inv rl st -> eq_op_ok rl op -> (q_used st + 1) * rl < W ->
@@ -40,6 +78,18 @@ Theorem C14_eq_fail_unchanged :
 Proof. exact r_eq_fail_unchanged. Qed.
 Print Assumptions C14_eq_fail_unchanged.
 
+(* queue, both directions (within the length bound no byte count reaches 2^64, so the array's
+   ENOMEM-without-request cannot occur): failure reported <-> a request was refused *)
+Theorem C14_eq_fail_iff :
+  forall rl op st o x st' o' ev,
+    qst_inv rl st -> eq_op_ok rl op -> (q_used st + 1) * rl < W ->
+    r_eq_step op st o = Ok (x, st', o', ev) ->
+    op <> QDelete ->
+    (refused ev = true <-> x = YRc false).
+Proof. exact r_eq_fail_iff. Qed.
+Print Assumptions C14_eq_fail_iff.
+
+(* map (init, add): refused request -> NULL / -1 and nothing changed *)
 Theorem C14_spm_fail_unchanged :
   forall op st o x st' o' ev,
     mst_inv st -> spm_op_ok op -> (m_used st + 1) * 8 < W -> (m_next st < INT64_MAX)%Z ->
@@ -48,6 +98,17 @@ Theorem C14_spm_fail_unchanged :
     st' = st /\ x = spm_err_out op /\ mst_inv st'.
 Proof. exact r_spm_fail_unchanged. Qed.
 Print Assumptions C14_spm_fail_unchanged.
+
+(* map, both directions: NULL from init / -1 from add <-> a request was refused (the number add
+   issues is never -1) *)
+Theorem C14_spm_fail_iff :
+  forall op st o x st' o' ev,
+    mst_inv st -> spm_op_ok op -> (m_used st + 1) * 8 < W -> (m_next st < INT64_MAX)%Z ->
+    r_spm_step op st o = Ok (x, st', o', ev) ->
+    is_sdelete op = false ->
+    (refused ev = true <-> x = spm_err_out op).
+Proof. exact r_spm_fail_iff. Qed.
+Print Assumptions C14_spm_fail_iff.
 
 (* M2 infallible_ops: elasticarray_shrink and _free return normally under EVERY oracle (the
    all-refusing one included) and the contents are those of the ideal shrink: when realloc
@@ -81,8 +142,9 @@ Proof. exact r_spm_delete_infallible. Qed.
 Print Assumptions C14_spm_delete_infallible.
 
 (* M3 no_leak: replaying the malloc / realloc / free events of an operation on the ghost heap
-   (multiset of block sizes; None = a block freed that is not live) succeeds and leaves exactly
-   the blocks the object owns afterwards, plus what export / exportdup handed to the client.
+   (multiset of block sizes; None = a free / realloc of a size of which no block is live - see the
+   limitation in the header) succeeds and leaves exactly the blocks (sizes) the object owns
+   afterwards, plus what export / exportdup handed to the client.
    With C14_*_fail_unchanged: after a refused request the live blocks are those before; after
    free (state None, owns nothing) none of the object's blocks is live. *)
 Theorem C14_ea_no_leak :
@@ -121,3 +183,29 @@ Theorem C14_spm_no_leak :
               Permutation h (mst_owned ea_struct_size eq_struct_size spm_struct_size st' ++ rest).
 Proof. exact r_spm_step_no_leak. Qed.
 Print Assumptions C14_spm_no_leak.
+
+(* ... and for whole queue / map programs under any oracle (the per-step statements composed
+   through the C12 invariants, as C14_ea_run_no_leak): after the program the live blocks are
+   those present before that the object did not own, plus exactly what the object owns in its
+   final state - nothing if the program ends with free *)
+Theorem C14_eq_run_no_leak :
+  forall rl ops st o tr rest,
+    qst_inv rl st -> Forall (eq_op_ok rl) ops ->
+    (q_used st + N.of_nat (length ops)) * rl < W ->
+    r_eq_run ops st o = Ok tr ->
+    exists h, heap_run (qst_owned ea_struct_size eq_struct_size st ++ rest) (concat (map qtr_ev tr)) = Some h /\
+              Permutation h (qst_owned ea_struct_size eq_struct_size (qtr_final st tr) ++ rest).
+Proof. exact r_eq_run_no_leak. Qed.
+Print Assumptions C14_eq_run_no_leak.
+
+Theorem C14_spm_run_no_leak :
+  forall ops st o tr rest,
+    mst_inv st -> Forall spm_op_ok ops ->
+    m_used st + N.of_nat (length ops) < 2 ^ 60 ->
+    (m_next st + Z.of_nat (length ops) < 2 ^ 60)%Z ->
+    r_spm_run ops st o = Ok tr ->
+    exists h, heap_run (mst_owned ea_struct_size eq_struct_size spm_struct_size st ++ rest)
+                       (concat (map mtr_ev tr)) = Some h /\
+              Permutation h (mst_owned ea_struct_size eq_struct_size spm_struct_size (mtr_final st tr) ++ rest).
+Proof. exact r_spm_run_no_leak. Qed.
+Print Assumptions C14_spm_run_no_leak.
